@@ -79,7 +79,14 @@ def generate(ctx):
     ctx.notes.append(f"c20_args2lean: {info}")
     if lean is not None and c20_args2lean.write_if_changed(LEAN / "CogentModel" / "Gen" / "C20Args.lean", lean):
         ctx.notes.append("Gen/C20Args.lean was rewritten (the translated statements of util/table.py differ from the last generated text)")
-    return [f"c20_args2lean: {p}" for p in problems]
+    problems = [f"c20_args2lean: {p}" for p in problems]
+    from translator import c20_load2lean
+
+    lean, info, probs2 = c20_load2lean.translate(SRC / "parse" / "table.py")
+    ctx.notes.append(f"c20_load2lean: {info}")
+    if lean is not None and c20_load2lean.write_if_changed(LEAN / "CogentModel" / "Gen" / "C20Load.lean", lean):
+        ctx.notes.append("Gen/C20Load.lean was rewritten (the statements of parse/table.py::load_delimited differ from the last generated text)")
+    return problems + [f"c20_load2lean: {p}" for p in probs2]
 
 
 # --------------------------------------------------------------------------
@@ -2069,6 +2076,104 @@ def corr_table_text(ctx, out):
             out["nontrivial"].add(("tt", kind, str(want)[:80]))
 
 
+
+# --------------------------------------------------------------------------
+# load_delimited's row logic (header / with_title / with_legend / limit): the TRANSLATED definition, the hand model
+# --------------------------------------------------------------------------
+def gen_load_case(rng):
+    """a small delimited text + every argument of load_delimited, incl. files too short for the requested title /
+    header / legend lines, header=False, limit None / 0 / negative / beyond the end"""
+    delim = rng.choice([",", "\t", ";"])
+    nrec = rng.choice([0, 0, 1, 1, 2, 2, 3, 3, 4, 5, 7])
+    width = rng.randint(1, 3)
+    recs = [[gen_cell_text(rng) for _ in range(width if rng.random() < 0.9 else rng.randint(1, 4))] for _ in range(nrec)]
+    r = rng.random()
+    limit = None if r < 0.3 else rng.randint(-2, nrec + 2) if r < 0.9 else rng.choice([0, 1])
+    return dict(delim=delim, text=py_csv_write(recs, delim, "\n"), recs=recs, header=rng.random() < 0.7,
+                with_title=rng.random() < 0.35, with_legend=rng.random() < 0.35, limit=limit)
+
+
+def load_req(c, hand=False):
+    d = dict(delim=c["delim"], text=c["text"], header=c["header"], with_title=c["with_title"], with_legend=c["with_legend"], limit=c["limit"])
+    if hand:
+        d["hand"] = True
+    return ("load_delimited", d)
+
+
+def real_load(ctx, c, counter=[0]):
+    from cogent3.parse.table import load_delimited
+
+    counter[0] += 1
+    path = ctx.scratch / f"ld{counter[0]}.txt"
+    with open(path, "w", newline="") as f:
+        f.write(c["text"])
+    try:
+        hdr, rows, title, legend = load_delimited(str(path), header=c["header"], sep=c["delim"], with_title=c["with_title"],
+                                                  with_legend=c["with_legend"], limit=c["limit"])
+        return dict(header=None if hdr is None else list(hdr), rows=[list(r) for r in rows], title=title, legend=legend)
+    except Exception as e:  # noqa: BLE001
+        return {"err": type(e).__name__}
+    finally:
+        path.unlink()
+
+
+def load_tag(c):
+    lim = c["limit"]
+    n = len(c["recs"])
+    return "+".join([
+        "hdr" if c["header"] else "nohdr", "title" if c["with_title"] else "", "legend" if c["with_legend"] else "",
+        "limit=" + ("none" if lim is None else "neg" if lim < 0 else "0" if lim == 0 else "short" if lim < n else "long"),
+        f"recs={'0' if n == 0 else '1' if n == 1 else 'many'}",
+    ]).replace("++", "+")
+
+
+def load_oracle(c):
+    """the docstring reading, only where it is unambiguous: limit None or >= 1 and a file that has the lines asked for.
+    title = first line, header = next line, then at most `limit` lines (the legend line is the last line READ)"""
+    recs = [list(r) for r in c["recs"]]
+    if any("\n" in x or "\r" in x for r in recs for x in r):
+        return None
+    need = int(c["with_title"]) + int(c["header"]) + int(c["with_legend"])
+    if c["limit"] is not None and c["limit"] < 1 or len(recs) < need + 1:
+        return None
+    title = "".join(recs.pop(0)) if c["with_title"] else ""
+    hdr = recs.pop(0) if c["header"] else None
+    if c["limit"] is not None:
+        recs = recs[: c["limit"]]
+    legend = "".join(recs.pop()) if c["with_legend"] else ""
+    return dict(header=hdr, rows=recs, title=title, legend=legend)
+
+
+def check_load(ctx, c, rep=None):
+    """REAL load_delimited vs (1) the docstring oracle, (2) the Lean HAND model loadRowsH (what load_delimited_translated
+    is about).  None or (what, expected, got, sig)"""
+    real = real_load(ctx, c)
+    want = load_oracle(c)
+    if want is not None and real != want:
+        return ("load_delimited returns other lines than the file's title / header / first `limit` rows / legend", show(want), show(real), f"loadrows:oracle:{load_tag(c)}")
+    if getattr(ctx, "driver", None) is None:
+        return None
+    if rep is None:
+        rep = ctx.driver.batch([load_req(c, hand=True)])[0]
+    if rep != real:
+        return ("load_delimited handles the records differently from the hand model (loadRowsH)", show(rep), show(real), f"loadrows:hand:{load_tag(c)}")
+    return None
+
+
+def corr_load_rows(ctx, out):
+    """REAL load_delimited vs the csv reader model followed by the definition GENERATED from its source"""
+    rng = ctx.subrng("loadrows")
+    cases = [gen_load_case(rng) for _ in range(ctx.budget(400, 4000))]
+    for c, rep in zip(cases, ctx.driver.batch([load_req(c) for c in cases])):
+        out["evaluations"] += 1
+        real = real_load(ctx, c)
+        bump(out, "load_rows", load_tag(c).split("+recs")[0])
+        bump(out, "load_rows_result", real.get("err", "ok"))
+        if rep != real:
+            add_failure(out, "corr", "load_delimited differs from the translated row logic (Gen/C20Load.lean)", show({k: v for k, v in c.items() if k != "recs"}), real, rep, confirmed=False)
+        elif real.get("rows") or "err" in real:
+            out["nontrivial"].add(("ld", repr(c)[:200]))
+
 # --------------------------------------------------------------------------
 # correspondence: MODEL vs REAL for table ops
 # --------------------------------------------------------------------------
@@ -2229,6 +2334,7 @@ def correspondence(ctx):
     replay_fixed_witnesses(ctx, out)
     corr_csv(ctx, out)
     corr_table_text(ctx, out)
+    corr_load_rows(ctx, out)
     corr_cast_and_format(ctx, out)
     rng = ctx.subrng("corr-ops")
     cases = [gen_case(rng) for _ in range(ctx.budget(5000, 100000))]
@@ -2325,6 +2431,18 @@ def spec_check(ctx, budget):
             fail(f[0], dict(kind="args", case=acase), f[1], f[2], f[3])
         else:
             out["nontrivial"].add(("args", repr(acase)[:300]))
+    # load_delimited's row logic: REAL vs the docstring oracle and vs the Lean HAND model (spec side of load_delimited_translated)
+    lrng = ctx.subrng(f"loadrows{budget}")
+    lcases = [gen_load_case(lrng) for _ in range(300 * budget)]
+    lreps = ctx.driver.batch([load_req(c, hand=True) for c in lcases]) if getattr(ctx, "driver", None) is not None else [None] * len(lcases)
+    for lcase, lrep in zip(lcases, lreps):
+        out["evaluations"] += 1
+        bump(out, "load_rows_spec", "oracle" if load_oracle(lcase) is not None else "hand-only")
+        f = check_load(ctx, lcase, lrep)
+        if f:
+            fail(f[0], dict(kind="loadrows", case=lcase), f[1], f[2], f[3])
+        else:
+            out["nontrivial"].add(("loadrows", repr(lcase)[:200]))
     # ops outside the Lean model
     xrng = ctx.subrng(f"extra{budget}")
     for _ in range(400 * budget):
@@ -2407,6 +2525,8 @@ def _check_input(ctx, inp):
         f = check_args_vs_hand(ctx, inp["case"])
     elif inp.get("kind") == "extra":
         f = check_extra(inp["case"])
+    elif inp.get("kind") == "loadrows":
+        f = check_load(ctx, inp["case"])
     elif inp.get("kind") == "format":
         f = check_format_text(ctx, inp["table"], inp["how"])
     elif inp.get("kind") == "file":
